@@ -1064,6 +1064,11 @@ func (g *gRun) exportPoint() {
 		if d, ok := o.Diff[m]; ok {
 			g.failOnce("import_equals", m+"/"+d[0]+"/"+d[1], fmt.Sprintf("export point %d: store of %s differs after export + import: %s", point, m, d[2]))
 			g.out.Count("import.diff." + m)
+			if m == "orderbook" && strings.Contains(d[0], "participation-exposure-by-index") {
+				// C10 "the two indexes of per-outcome exposures always contain the same entries": also after a restart
+				g.out.Fail(MonFail{Property: "C10", Monitor: "index_equal_after_restart", Class: "by-index/" + d[1], History: g.h,
+					Detail: fmt.Sprintf("export point %d: the by-index exposure store differs after export + import: %s", point, d[2])})
+			}
 			if m == "reward" && strings.Contains(d[0], "grant-stats") {
 				// C12 "never beyond the per-account cap": the cap counters are part of what a restarted chain must hold
 				g.out.Fail(MonFail{Property: "C12", Monitor: "caps_survive_restart", Class: "grant-stats/" + d[1], History: g.h,
